@@ -111,6 +111,8 @@ def one(rng, j):
         cls, a = "zero", 0.0
     elif k < 0.40:
         cls, a = "to_flat_nearby", None
+    elif k < 0.44:
+        cls, a = "mirror", None       # amount == +value: NOT a close-out request
     else:
         cls, a = "random", rng.uniform(-30, 30) * unit
     bad = None
@@ -135,6 +137,8 @@ def evaluate(c, cnt):
     a = c["amount"]
     if c["cls"] == "closeout":
         a = -v0
+    elif c["cls"] == "mirror":
+        a = v0
     elif c["cls"] == "to_flat_nearby":
         a = -v0 + random.Random(c["j"]).choice([1, -1]) * random.Random(c["j"] + 1).uniform(0, 0.6) * p * m
     c["amount"] = a
